@@ -33,6 +33,10 @@ type FnV struct {
 	Name string // top-level function
 	Mod  string
 	Lit  *FnLit
+	// Env: the scopes of the function that created the literal, shared with it (a function literal
+	// "captures its environment": it reads and writes the very variables of its creator).
+	Env    []scope
+	EnvMod *Module
 }
 
 // Display mirrors the text rendering of runtime values (rendering is not what C01 is about).
@@ -387,11 +391,12 @@ func (m *Machine) callFunc(mod *Module, f *Func, args []Value) (Value, signal) {
 	return v, s
 }
 
-func (m *Machine) callLit(l *FnLit, args []Value) (Value, signal) {
+func (m *Machine) callLit(fv *FnV, args []Value) (Value, signal) {
+	l := fv.Lit
 	if len(m.frames) > m.CallLimit {
 		return nil, fatal("StackOverFlow", "call depth")
 	}
-	fr := &frame{mod: m.cur().mod, scopes: []scope{{}}}
+	fr := &frame{mod: fv.EnvMod, scopes: append(append([]scope{}, fv.Env...), scope{})}
 	m.frames = append(m.frames, fr)
 	defer func() { m.frames = m.frames[:len(m.frames)-1] }()
 	for i, p := range l.Params {
@@ -706,7 +711,7 @@ func (m *Machine) expr(e Expr) (Value, signal) {
 				return nil, s
 			}
 			if fv.Lit != nil {
-				return m.callLit(fv.Lit, args)
+				return m.callLit(fv, args)
 			}
 			mod := m.prog.Mod(fv.Mod)
 			return m.callFunc(mod, mod.Func(fv.Name), args)
@@ -833,7 +838,7 @@ func (m *Machine) expr(e Expr) (Value, signal) {
 		return v, s
 	case FnLit:
 		lit := e
-		return &FnV{Lit: &lit}, signal{}
+		return &FnV{Lit: &lit, Env: append([]scope{}, m.cur().scopes...), EnvMod: m.cur().mod}, signal{}
 	}
 	panic(fmt.Sprintf("prog: unknown expression %T", e))
 }
